@@ -19,6 +19,7 @@ CONSTANTS
   MONT_A <- MONT_A_101
   APLUS2_OVER_FOUR <- APLUS2_OVER_FOUR_101
   PAIRALL = FALSE
+  QUICK = FALSE
 INIT Init
 NEXT Next
 INVARIANT Inv
